@@ -6,6 +6,7 @@
 //! lost after any prefix, and the repository is consistent after the follow-up prune.
 //!
 //!   c10 mon <bp|pb|bb> <seed>,<k>[,<j>] <pre-ops> <run-ops> <followup-ops>
+//!   c10 mon bfp <seed>,<k>,<code> <pre-ops> <run-ops> <followup-ops>      (forget + prune(s) while a backup is parked, see `Fp`)
 //! With `j`: B runs on a gated thread too and parks before its j-th storage operation until A has finished
 //! (interleaving A[0..k) B[0..j) A[k..] B[j..]).
 use std::sync::atomic::{AtomicBool, AtomicUsize, Ordering};
@@ -215,6 +216,127 @@ fn scenario(kind: &str, seed: u64, k: usize, j: Option<usize>, with_trace: bool)
     Ok(Run { pre: p, run: toks, follow, n_a, n_b })
 }
 
+// ---------------------------------------------------------------------------------------------------------
+// family `bfp`: while a backup is parked (after its index load, before its k-th storage operation) snapshots are
+// forgotten and one or two prunes run; then the backup finishes; follow-up prune; everything must be healthy.
+
+/// Parameters of one `bfp` scenario (encoded in the op line as a number, see `Fp::code`).
+#[derive(Clone, Copy, Debug)]
+pub struct Fp {
+    /// snapshots before (versions 0..n of the evolving source)
+    pub n_snaps: u64,
+    /// forget every snapshot (the prune keeps nothing) — else only the newest one, whose content the backup re-uses
+    pub forget_all: bool,
+    /// 0: the backup saves exactly the forgotten content again (adds no blob, pure reuse); 1: plus one new file; 2: a newer version
+    pub a_new: u64,
+    /// prunes while the backup is parked (the second one 10 min after the first)
+    pub prunes: u64,
+    /// the plan times lie more than keep-delete after the creation of the packs
+    pub old_packs: bool,
+    pub no_resize: bool,
+}
+
+impl Fp {
+    pub fn code(&self) -> u64 {
+        (self.n_snaps - 1) + 3 * (u64::from(self.forget_all) + 2 * (self.a_new + 3 * ((self.prunes - 1) + 2 * (u64::from(self.old_packs) + 2 * u64::from(self.no_resize)))))
+    }
+    pub fn from_code(c: u64) -> Option<Self> {
+        if c >= 144 {
+            return None;
+        }
+        let (n, c) = (c % 3 + 1, c / 3);
+        let (f, c) = (c % 2 == 1, c / 2);
+        let (a, c) = (c % 3, c / 3);
+        let (p, c) = (c % 2 + 1, c / 2);
+        let (o, c) = (c % 2 == 1, c / 2);
+        Some(Self { n_snaps: n, forget_all: f, a_new: a, prunes: p, old_packs: o, no_resize: c % 2 == 1 })
+    }
+}
+
+fn prune_at_with(h: &RepoHandle, secs: i64, no_resize: bool) -> RusticResult<()> {
+    let r = h.open()?;
+    let o = parse_opts(&format!("0,0,{KD},000{}000,u,p0", u8::from(no_resize))).unwrap().opts;
+    let z = Timestamp::from_second(secs).unwrap().to_zoned(TimeZone::UTC);
+    let rep = hook::plan_at(&r, &o, z)?;
+    r.prune(&o, rep.plan)
+}
+
+fn scenario_fp(seed: u64, k: usize, fp: Fp, with_trace: bool) -> Result<Run, String> {
+    let e = |x: Box<rustic_core::RusticError>| format!("oracle-fail:prestate-{}", errkind(&x));
+    let (h, _) = RepoHandle::init(MemBackend::new(), None, &cfg(seed)).map_err(e)?;
+    let now = Timestamp::now().as_second();
+    let mut live = vec![];
+    for v in 0..fp.n_snaps {
+        let src = source(seed, v, None);
+        let snap = do_backup(&h, &src).map_err(e)?;
+        live.push((snap, src));
+    }
+    h.be.clear_log();
+    let before = h.be.store();
+    let last = fp.n_snaps - 1;
+    let a_src = match fp.a_new {
+        0 => source(seed, last, None),
+        1 => source(seed, last, Some(Rng::new(seed ^ 0xa1).bytes(900))),
+        _ => source(seed, last + 3, None),
+    };
+    let a_src2 = a_src.clone();
+    // the backup loads its index now, then parks before its k-th storage operation
+    let ga = spawn_gated(&h, "actor-a", k, move |hh| {
+        let snap = do_backup(hh, &a_src2).map_err(|e| format!("oracle-fail:backup-{}", errkind(&e)))?;
+        Ok(Out::Snap(snap, a_src2))
+    });
+    wait_parked(&ga);
+    let mid = h.be.store();
+    // meanwhile: forget, prune (marks what only the forgotten snapshots used), maybe prune again 10 min later
+    let forget: Vec<_> = if fp.forget_all { live.drain(..).collect() } else { vec![live.pop().unwrap()] };
+    let ids: Vec<_> = forget.iter().map(|l| l.0.id).collect();
+    let t1 = now + if fp.old_packs { KD + 3600 } else { 3600 };
+    let b_res = (|| -> RusticResult<()> {
+        h.open()?.delete_snapshots(&ids)?;
+        prune_at_with(&h, t1, fp.no_resize)?;
+        if fp.prunes == 2 {
+            prune_at_with(&h, t1 + 600, fp.no_resize)?;
+        }
+        Ok(())
+    })();
+    _ = ga.resume.send(());
+    let a_out = ga.th.join().map_err(|_| "oracle-fail:actor-a-panicked".to_string())?;
+    b_res.map_err(|e| format!("oracle-fail:prune-{}", errkind(&e)))?;
+    if let Out::Snap(s, src) = a_out? {
+        live.push((s, src));
+    }
+    let n_a = ga.own.load(Ordering::SeqCst);
+    let log_run = h.be.log();
+    let after_run = h.be.store();
+    // follow-up prune one hour later, then the repository must be completely healthy
+    h.be.clear_log();
+    prune_at_with(&h, t1 + 4200, fp.no_resize).map_err(|e| format!("oracle-fail:followup-prune-{}", errkind(&e)))?;
+    let log_follow = h.be.log();
+    match check_errors_retry(&h, true) {
+        Some(0) => {}
+        Some(_) => return Err("oracle-fail:check-errors-after-followup".into()),
+        None => return Err("oracle-fail:check-failed-after-followup".into()),
+    }
+    let r = h.open().and_then(|r| r.to_indexed()).map_err(|_| "oracle-fail:open".to_string())?;
+    for (s, src) in &live {
+        let mut got = repo::read_back(&r, s).map_err(|_| "oracle-fail:snapshot-unreadable-after-followup".to_string())?;
+        got.retain(|e| e.path != b"src");
+        if got != repo::expected(src) {
+            return Err("oracle-fail:snapshot-differs-after-followup".into());
+        }
+    }
+    if !with_trace {
+        return Ok(Run { pre: vec![], run: vec![], follow: vec![], n_a, n_b: 0 });
+    }
+    let after_all = union(&union(&mid, &after_run), &h.be.store());
+    let mut log = log_run.clone();
+    log.extend(log_follow.iter().cloned());
+    let n_run = log_run.iter().filter(|o| o.applied).count();
+    let (p, mut toks) = abstract_tokens(&h, &before, &after_all, &log)?;
+    let follow = toks.split_off(n_run);
+    Ok(Run { pre: p, run: toks, follow, n_a, n_b: 0 })
+}
+
 /// Replay of theorem `slow_prune_can_lose` on the real code, sequentially, with injected plan times:
 /// prune A *plans* at T0 (pack P of a forgotten snapshot is unused, still unmarked); a backup loads its index
 /// (P visible); A executes (P is marked with A's plan time T0); prune C plans at T0 + keep-delete + 10 min and deletes
@@ -265,6 +387,18 @@ pub fn exec(toks: &[&str]) -> String {
         if toks.len() == 2 && toks[0] == "slowprune" {
             return toks[1].parse::<u64>().map_or("bad-op".into(), slow_prune);
         }
+        if toks.len() == 6 && toks[0] == "mon" && toks[1] == "bfp" {
+            let sp: Vec<&str> = toks[2].split(',').collect();
+            if sp.len() != 3 {
+                return "bad-op".into();
+            }
+            let (Ok(seed), Ok(k), Ok(code)) = (sp[0].parse::<u64>(), sp[1].parse::<usize>(), sp[2].parse::<u64>()) else { return "bad-op".into() };
+            let Some(fp) = Fp::from_code(code) else { return "bad-op".into() };
+            return match scenario_fp(seed, k, fp, false) {
+                Ok(_) => "ok".into(),
+                Err(e) => e,
+            };
+        }
         if toks.len() != 6 || toks[0] != "mon" || !["bp", "pb", "bb"].contains(&toks[1].as_str()) {
             return "bad-op".into();
         }
@@ -285,8 +419,48 @@ pub fn exec(toks: &[&str]) -> String {
     })
 }
 
+/// the `bfp` family: every combination of (what the backup adds) × (one or two prunes) × (forget one / all) × (old / young
+/// packs), `n_snaps` and `no_resize` by seed; every park position k.  thorough: four rounds.
+fn generate_fp(thorough: bool, rng: &mut Rng, ops: &mut Vec<String>, stats: &mut Stats) {
+    for _ in 0..if thorough { 4 } else { 1 } {
+        for a_new in 0..3u64 {
+            for prunes in 1..=2u64 {
+                for forget_all in [false, true] {
+                    for old_packs in [false, true] {
+                        let seed = rng.below(1_000_000);
+                        let fp = Fp { n_snaps: 1 + rng.below(3), forget_all, a_new, prunes, old_packs, no_resize: rng.below(2) == 1 };
+                        let code = fp.code();
+                        let n_a = guarded(move || match scenario_fp(seed, usize::MAX, fp, false) {
+                            Ok(r) => r.n_a.to_string(),
+                            Err(e) => e,
+                        })
+                        .parse::<usize>()
+                        .unwrap_or(0);
+                        for k in 0..=n_a {
+                            let spec = format!("{seed},{k},{code}");
+                            let spec2 = spec.clone();
+                            let line = guarded(move || match scenario_fp(seed, k, fp, true) {
+                                Ok(r) => {
+                                    let jn = |v: &[String]| if v.is_empty() { "-".to_string() } else { v.join(";") };
+                                    format!("c10 mon bfp {spec} {} {} {}", jn(&r.pre), jn(&r.run), jn(&r.follow))
+                                }
+                                Err(e) => format!("c10 mon bfp {spec} - X{} -", e.split_whitespace().next().unwrap_or("?")),
+                            });
+                            let line = if line.starts_with("c10 ") { line } else { format!("c10 mon bfp {spec2} - X{} -", line.split_whitespace().next().unwrap_or("?")) };
+                            stats.hit("kind.bfp");
+                            stats.hit(format!("bfp.adds{a_new}.prunes{prunes}.forget{}.{}", if forget_all { "all" } else { "one" }, if old_packs { "old" } else { "young" }));
+                            ops.push(line);
+                        }
+                    }
+                }
+            }
+        }
+    }
+}
+
 pub fn generate(thorough: bool, rng: &mut Rng, ops: &mut Vec<String>, stats: &mut Stats) {
-    let seeds = if thorough { 6 } else { 2 };
+    generate_fp(thorough, rng, ops, stats);
+    let seeds = if thorough { 12 } else { 2 };
     for round in 0..seeds {
         for kind in ["bp", "pb", "bb"] {
             let seed = rng.below(1_000_000);
